@@ -38,7 +38,7 @@ TaskCtl *g_cur = &g_main_ctl;
 
 // ------------------------------------------------------------------ fibers
 static const size_t kStackSize = 1024 * 1024;
-static const size_t kEhSize = 16;  // sizeof(__cxa_eh_globals) on x86-64
+static const size_t kMaxLog = 1 << 18;  // recorded switches per run
 
 struct Fiber {
   ucontext_t ctx;
@@ -47,7 +47,7 @@ struct Fiber {
   void *tsan_fiber = nullptr;
   void *asan_fake = nullptr;
   unsigned vg_id = 0;
-  char eh[kEhSize] = {};
+  uint64_t eh[2] = {};  // saved __cxa_eh_globals
 };
 
 enum TState { T_READY, T_BLOCKED, T_DONE };
@@ -82,6 +82,7 @@ struct SchedState {
   void *arg = nullptr;
   Task *starting = nullptr;
   size_t main_script_cursor = 0;
+  uint32_t static_ticks = 0;
 };
 static SchedState S;
 
@@ -105,11 +106,13 @@ static char *get_stack(int i) {
 }
 
 static void fiber_switch(Fiber *from, Fiber *to, bool sync, bool from_dying) {
-  void *eh = (void *)abi::__cxa_get_globals();
-  memcpy(from->eh, eh, kEhSize);
-  memcpy(eh, to->eh, kEhSize);
-  if (S.stats && (from->eh[8] | from->eh[9] | from->eh[10] | from->eh[11]))
-    S.stats->switches_in_exception++;
+  // word copies, not memcpy: TSan intercepts libc even in this TU
+  volatile uint64_t *eh = (volatile uint64_t *)abi::__cxa_get_globals();
+  from->eh[0] = eh[0];
+  from->eh[1] = eh[1];
+  eh[0] = to->eh[0];
+  eh[1] = to->eh[1];
+  if (S.stats && (uint32_t)from->eh[1] != 0) S.stats->switches_in_exception++;
 #if defined(SIM_ASAN)
   __sanitizer_start_switch_fiber(from_dying ? nullptr : &from->asan_fake,
                                  to->stack, to->stack_size);
@@ -162,7 +165,7 @@ static void log_switch(int task, uint32_t op, uint32_t yidx, int to,
                         ((uint64_t)(uint32_t)(task + 1) << 48) ^
                             ((uint64_t)op << 24) ^ yidx,
                         ((uint64_t)(uint32_t)(to + 1) << 8) | why);
-  if (S.log) S.log->push_back(SwitchRec{task, op, yidx, to, why});
+  if (S.log && S.log->size() < kMaxLog) S.log->push_back(SwitchRec{task, op, yidx, to, why});
 }
 
 // script lookup: entries of one task are consumed in order
@@ -370,11 +373,13 @@ void run_tasks(int n, TaskFn fn, void *arg, const SchedConfig &cfg,
   S.cfg = cfg;
   S.stats = &stats;
   S.log = cfg.record ? log_out : nullptr;
+  if (S.log) S.log->reserve(kMaxLog);  // no reallocation while tasks run
   S.rng = Rng(mix3(cfg.seed, 0x5c4ed, 1));
   S.countdown = 1 + (int64_t)S.rng.below(2 * (cfg.period ? cfg.period : 1));
   S.fn = fn;
   S.arg = arg;
   S.main_script_cursor = 0;
+  S.static_ticks = 0;
   S.pct_points.clear();
   S.pct_low = 0;
   if (cfg.policy == P_PCT)
@@ -386,7 +391,11 @@ void run_tasks(int n, TaskFn fn, void *arg, const SchedConfig &cfg,
     S.stall_from = S.rng.below(cfg.est_steps ? cfg.est_steps : 1);
     S.stall_to = S.stall_from + 1 + S.rng.below(cfg.est_steps ? cfg.est_steps : 1);
   }
-  memcpy(S.main_fb.eh, (void *)abi::__cxa_get_globals(), kEhSize);
+  {
+    volatile uint64_t *eh = (volatile uint64_t *)abi::__cxa_get_globals();
+    S.main_fb.eh[0] = eh[0];
+    S.main_fb.eh[1] = eh[1];
+  }
   S.main_fb.stack = (char *)g_main_stack_bottom;
   S.main_fb.stack_size = g_main_stack_size;
 #if defined(SIM_TSAN)
@@ -402,7 +411,7 @@ void run_tasks(int n, TaskFn fn, void *arg, const SchedConfig &cfg,
     t.fb.stack = get_stack(i);
     t.fb.stack_size = kStackSize;
     t.fb.asan_fake = nullptr;
-    memset(t.fb.eh, 0, kEhSize);
+    t.fb.eh[0] = t.fb.eh[1] = 0;
     getcontext(&t.fb.ctx);
     t.fb.ctx.uc_stack.ss_sp = t.fb.stack;
     t.fb.ctx.uc_stack.ss_size = t.fb.stack_size;
@@ -481,6 +490,8 @@ void tick_scalar() {
       S.stats->fired_scalar++;
       throw ScalarFault();
     }
+  } else if (S.active && S.cfg.static_init_throw && ++S.static_ticks == S.cfg.static_init_throw) {
+    throw ScalarFault();  // StaticInitThrow: exercises __cxa_guard_abort
   }
   yield_point(Y_SCALAR);
 }
@@ -524,16 +535,16 @@ void hb_acquire(void *addr) {
 // Itanium ABI guard object: byte 0 = initialised. We keep "in progress" in
 // byte 1. Only one OS thread ever runs simulator code, so no atomics needed
 // here; the compiler-inlined fast path reads byte 0 with an acquire load.
-static std::vector<uint64_t *> *g_lib_guards = nullptr;
+// Fixed array, no libc calls: TSan intercepts memmove/memcpy even in this
+// uninstrumented TU and would take the registry for shared library state.
+static const int kMaxGuards = 256;
+static uint64_t *g_lib_guards[kMaxGuards];
+static int g_n_guards = 0;
 
 static void guard_register(uint64_t *g) {
-  ++g_cur->exempt;
-  if (!g_lib_guards) g_lib_guards = new std::vector<uint64_t *>();
-  bool found = false;
-  for (uint64_t *p : *g_lib_guards)
-    if (p == g) found = true;
-  if (!found) g_lib_guards->push_back(g);
-  --g_cur->exempt;
+  for (int i = 0; i < g_n_guards; i++)
+    if (g_lib_guards[i] == g) return;
+  if (g_n_guards < kMaxGuards) g_lib_guards[g_n_guards++] = g;
 }
 
 extern "C" int __wrap___cxa_guard_acquire(uint64_t *g) {
@@ -588,9 +599,8 @@ extern "C" void __wrap___cxa_guard_abort(uint64_t *g) {
 }
 
 void reset_library_guards() {
-  if (!g_lib_guards) return;
-  for (uint64_t *g : *g_lib_guards) {
-    volatile uint8_t *b = (volatile uint8_t *)g;
+  for (int i = 0; i < g_n_guards; i++) {
+    volatile uint8_t *b = (volatile uint8_t *)g_lib_guards[i];
     b[0] = 0;
     b[1] = 0;
   }
